@@ -44,6 +44,10 @@ FLOAT_BATTERY = [
 
 
 WIDE_DIVISORS = ['3', '7', '6', '0.003', '0.7', '0.3']
+WIDE_CMP = ['<', '<=', '>', '>=']
+WIDE_CMP_WITH = ['8', '80', '9000']
+# (operator, other operand, form): 0 `L % d`, 1 `x = L ; x %= d ; x`, 2 `L op r`, 3 `r op L`
+WIDE_CASES = [('%', d, f) for d in WIDE_DIVISORS for f in (0, 1)] + [(o, r, f) for o in WIDE_CMP for r in WIDE_CMP_WITH for f in (2, 3)]
 
 
 def prepare(it):
@@ -103,8 +107,7 @@ def harness(it, px, params):
         # operands at the edge of the 28-digit / 96-bit range: a literal of W symbolic digits (optional '.' at a symbolic
         # place) under % and %= with a small concrete divisor; the exact remainder is linear in the digits
         W = params['WIDE'][pick_config(px, 'wlen', len(params['WIDE']))]
-        dv = WIDE_DIVISORS[pick_config(px, 'wdiv', len(WIDE_DIVISORS))]
-        form = pick_config(px, 'wform', 2)
+        wop, dv, form = WIDE_CASES[pick_config(px, 'wcase', len(WIDE_CASES))]
         bs = [px.bv('b%d' % i, 8) for i in range(W)]
         dot = px.bv('dotpos', 8)
         for i, b in enumerate(bs):
@@ -118,14 +121,18 @@ def harness(it, px, params):
             return rec
         if form == 0:
             text = Str(tuple(bs) + tuple(b' % ' + dv.encode()))
-        else:
+        elif form == 1:
             text = Str(tuple(b'x = ') + tuple(bs) + tuple(b' ; x %= ' + dv.encode() + b' ; x'))
+        elif form == 2:
+            text = Str(tuple(bs) + tuple((' %s ' % wop).encode() + dv.encode()))
+        else:
+            text = Str(tuple(dv.encode() + (' %s ' % wop).encode()) + tuple(bs))
         got = api.execute(it, text, api.new_context(it))
         ip, _, fp_ = dv.partition('.')
         a, c = api.V_num(orc[1], orc[2]), api.V_num(int(ip + fp_), len(fp_))
         want_kind, want = 'ok', None
         try:
-            want = re_.RefEval(it.truth).infix_calc('%', a, c)
+            want = re_.RefEval(it.truth).infix_calc(wop, c, a) if form == 3 else re_.RefEval(it.truth).infix_calc(wop, a, c)
         except re_.RefErr:
             want_kind = 'err'
         except re_.Outside:
@@ -137,12 +144,12 @@ def harness(it, px, params):
         if want_kind == 'outside':
             return rec
         if got.kind != want_kind:
-            px.finding(finding('arith|%%|wide|%s-vs-%s' % (got.kind, want_kind), 'a remainder of a %d-digit number gives %s where exact decimal arithmetic gives %s' % (W, got.kind, want_kind), rec['witness']))
+            px.finding(finding('arith|%s|wide|%s-vs-%s' % (wop, got.kind, want_kind), '`%s` on a %d-digit number gives %s where exact decimal arithmetic gives %s' % (wop, W, got.kind, want_kind), rec['witness']))
         elif got.kind == 'ok':
             okv, cm = px.check(re_.value_eq(got.value, want))
             if not okv:
                 rec['witness'] = px.eval_bytes(cm, text.b).hex()
-                px.finding(finding('arith|%|wide|inexact', 'the remainder of a %d-digit number differs from exact decimal arithmetic' % W, rec['witness']))
+                px.finding(finding('arith|%s|wide|inexact' % wop, '`%s` on a %d-digit number differs from exact decimal arithmetic' % (wop, W), rec['witness']))
         return rec
     if fam == 'long':
         # long literals: every byte a symbolic digit, optionally one '.' at a symbolic place (64-bit and 96-bit boundaries)
@@ -417,7 +424,7 @@ def run(ctx):
             'traces_validated_against_impl': validated, 'samples': samples[:40], 'exhaustive': not summ.get('truncated') and not inconclusive,
             'bound': {'literal_bytes_max': params['LIT'], 'literal_alphabet': '0-9 . e E (+ exponent-sign forms)', 'arith_digits': '1-2 integer digits, scale from %s, all digits symbolic' % params['SCALES'],
                       'operators': OPS, 'compound_assignment_forms': ['+=', '-=', '*=', '%='],
-                      'long_literal_lengths': list(params['LONG']), 'wide_remainder': '%% and %%= of a literal of %s symbolic digits (optional point) by each of %s' % (list(params['WIDE']), WIDE_DIVISORS), 'long_literal_shape': 'every byte a symbolic digit, optionally one `.` at a symbolic place'},
+                      'long_literal_lengths': list(params['LONG']), 'wide_operands': '%% , %%= and < <= > >= (either side) of a literal of %s symbolic digits (optional point) with each of %s' % (list(params['WIDE']), WIDE_DIVISORS + WIDE_CMP_WITH), 'long_literal_shape': 'every byte a symbolic digit, optionally one `.` at a symbolic place'},
             'path_status': by_status, 'outside_model': by_status.get('outside', 0),
             'solver': {'engine': 'z3 ' + z3.get_version_string(), 'queries_sat': summ['sat'], 'queries_unsat': summ['unsat'],
                        'queries_unknown': summ['unknown'], 'solver_s': round(summ['solver_s'], 2)},
